@@ -330,16 +330,20 @@ func (s *SwapService) OnTxConfirmed(swapId string, txHex string, gotErr error) e
 
 	// First check if we got an error!
 	if gotErr != nil {
-		swap.Data.LastErr = err
-		log.Infof("[%s]: got an error from the txwatcher, cancel swap: %v", swapId, err)
-		done, _ := swap.SendEvent(Event_ActionFailed, nil)
+		log.Infof("[%s]: got an error from the txwatcher, cancel swap: %v", swapId, gotErr)
+		done, _ := swap.SendEvent(Event_ActionFailed, &SwapErrorContext{Err: gotErr})
 		if done {
 			s.RemoveActiveSwap(swap.SwapId.String())
 		}
+		return nil
 	}
 
 	// todo move to eventctx
+	// The swap data is shared with the event handlers: only touch it while
+	// holding the state machine's mutex.
+	swap.mutex.Lock()
 	swap.Data.OpeningTxHex = txHex
+	swap.mutex.Unlock()
 	done, err := swap.SendEvent(Event_OnTxConfirmed, nil)
 	if err == ErrEventRejected {
 		return nil
